@@ -5,21 +5,31 @@ import os
 
 ROOT = os.path.dirname(os.path.dirname(os.path.abspath(__file__)))
 
-CHECKS = {
-    "C03": dict(
-        technique="Lean 4 proof (induction over the spec list) + differential correspondence of the Lean model with parse_range",
-        text="Lean theorems over an executable model of parse_range (canonical form, exact cover, exact 400/416 "
-             "characterisation, order independence, for every size and every list of specs); the model is tied to "
-             "/repo on every run by regenerated constants and by a differential correspondence (exhaustive small "
-             "range sets + random + mutated headers) against the real function; an independent oracle states the "
-             "property on the implementation's outputs.",
-        note="Trusted: Lean kernel (propext, Classical.choice, Quot.sound only), tools/extract.py, the "
-             "correspondence generator; CPython re/int/sorted behave as sampled. Header text is Latin-1.",
-        design="C03",
-    ),
-}
+import ast
 
-NOT_APPLICABLE = []
+
+def plugin_manifests():
+    out = {}
+    hd = os.path.join(ROOT, "harness")
+    for fn in sorted(os.listdir(hd)):
+        if not (fn.startswith("c") and fn[1:3].isdigit() and fn.endswith(".py")):
+            continue
+        tree = ast.parse(open(os.path.join(hd, fn), encoding="utf-8").read())
+        for node in tree.body:
+            if isinstance(node, ast.Assign) and isinstance(node.targets[0], ast.Name) \
+                    and node.targets[0].id == "MANIFEST":
+                out[fn[:-3].upper()] = ast.literal_eval(node.value)
+    return out
+
+
+CHECKS = plugin_manifests()
+
+# properties that are not claimed: id -> reason
+NOT_APPLICABLE = {}
+
+
+def all_property_ids():
+    return [json.loads(l)["id"] for l in open(os.path.join(ROOT, "properties.jsonl")) if l.strip()]
 
 
 def main():
@@ -58,7 +68,11 @@ def main():
                               "harness/cXX.py, independent per-property oracles",
         }],
         "checks": checks,
-        "not_applicable": NOT_APPLICABLE,
+        "not_applicable": [
+            {"property_id": pid,
+             "reason": NOT_APPLICABLE.get(pid, "not claimed yet: the model, theorems and correspondence for this "
+                                               "property are still being built (see DESIGN.md §10)")}
+            for pid in all_property_ids() if pid not in CHECKS],
         "notes": "Exit 2 = infrastructure failure (never a VIOLATION line). Genuine defects repaired in /repo are "
                  "listed in known_findings.json under 'fixed'.",
     }
